@@ -55,9 +55,21 @@ func c11FieldsOf(c *core.Ctx, rel string, typeNames ...string) map[*types.Var]st
 			c.Errorf("anchor: %s.%s is not a struct", rel, tn)
 			continue
 		}
-		for i := 0; i < st.NumFields(); i++ {
-			out[st.Field(i)] = tn + "." + st.Field(i).Name()
+		var add func(st *types.Struct, prefix string, depth int)
+		add = func(st *types.Struct, prefix string, depth int) {
+			for i := 0; i < st.NumFields(); i++ {
+				fv := st.Field(i)
+				out[fv] = prefix + "." + fv.Name()
+				// a field group moved into an embedded / named sub-struct held by value is still
+				// part of the same object
+				if sub, ok := types.Unalias(fv.Type()).(*types.Named); ok && depth < 3 && sub.Obj().Pkg() == n.Obj().Pkg() {
+					if sst, ok := sub.Underlying().(*types.Struct); ok {
+						add(sst, prefix+"."+fv.Name(), depth+1)
+					}
+				}
+			}
 		}
+		add(st, tn, 0)
 	}
 	return out
 }
@@ -281,6 +293,54 @@ func c11DeclOf(pkg *packages.Package) map[*types.Func]*ast.FuncDecl {
 
 // c11Reach returns the function declarations of pkg reachable from root through static
 // calls (function literals included).
+// c11SoleImpl resolves a method of an interface declared in pkg to the method of the single
+// concrete type of pkg that implements that interface (an unexported interface put in front
+// of its only implementation); any other function object is returned unchanged.
+func c11SoleImpl(pkg *packages.Package, o *types.Func) *types.Func {
+	if o == nil {
+		return nil
+	}
+	sig, ok := o.Type().(*types.Signature)
+	if !ok || sig.Recv() == nil || o.Pkg() != pkg.Types {
+		return o
+	}
+	rt := sig.Recv().Type()
+	if !types.IsInterface(rt) {
+		return o
+	}
+	it, ok := rt.Underlying().(*types.Interface)
+	if !ok {
+		return o
+	}
+	var found *types.Func
+	n := 0
+	scope := pkg.Types.Scope()
+	for _, name := range scope.Names() {
+		tn, ok := scope.Lookup(name).(*types.TypeName)
+		if !ok || tn.IsAlias() {
+			continue
+		}
+		named, ok := tn.Type().(*types.Named)
+		if !ok || types.IsInterface(named) || named.TypeParams().Len() > 0 {
+			continue
+		}
+		for _, t := range []types.Type{named, types.NewPointer(named)} {
+			if types.Implements(t, it) {
+				obj, _, _ := types.LookupFieldOrMethod(t, true, pkg.Types, o.Name())
+				if m, ok := obj.(*types.Func); ok {
+					found = m
+					n++
+				}
+				break
+			}
+		}
+	}
+	if n == 1 {
+		return found
+	}
+	return o
+}
+
 func c11Reach(pkg *packages.Package, decls map[*types.Func]*ast.FuncDecl, root *types.Func) map[*types.Func]bool {
 	seen := map[*types.Func]bool{}
 	var walk func(o *types.Func)
@@ -298,7 +358,7 @@ func c11Reach(pkg *packages.Package, decls map[*types.Func]*ast.FuncDecl, root *
 			case *ast.Ident:
 				// calls and method values / function values alike
 				if callee, ok := pkg.TypesInfo.Uses[x].(*types.Func); ok {
-					walk(callee)
+					walk(c11SoleImpl(pkg, callee))
 				}
 			}
 			return true
@@ -676,6 +736,33 @@ func c11Subject(f *flow.Func, call *ast.CallExpr) ast.Expr {
 			return sel.X
 		}
 	}
+	// a method value held in a single-assignment local: serve := X.m; serve(w, r)
+	if id, ok := ast.Unparen(call.Fun).(*ast.Ident); ok {
+		if v, ok := f.Info.Uses[id].(*types.Var); ok && !v.IsField() {
+			var src ast.Expr
+			n := 0
+			ast.Inspect(f.Body, func(x ast.Node) bool {
+				if as, ok := x.(*ast.AssignStmt); ok {
+					for i, l := range as.Lhs {
+						if lid, ok := l.(*ast.Ident); ok && (f.Info.Defs[lid] == v || f.Info.Uses[lid] == v) {
+							n++
+							if len(as.Rhs) == len(as.Lhs) {
+								src = as.Rhs[i]
+							}
+						}
+					}
+				}
+				return true
+			})
+			if n == 1 && src != nil {
+				if sel, ok := ast.Unparen(src).(*ast.SelectorExpr); ok {
+					if s := f.Info.Selections[sel]; s != nil && s.Kind() == types.MethodVal {
+						return sel.X
+					}
+				}
+			}
+		}
+	}
 	if len(call.Args) > 0 {
 		return call.Args[0]
 	}
@@ -959,6 +1046,9 @@ func c11RuntimeReload(c *core.Ctx, r *c11Router, decls map[*types.Func]*ast.Func
 		return
 	}
 	isReload := func(o types.Object) bool {
+		if fo, ok := o.(*types.Func); ok {
+			o = c11SoleImpl(pkg, fo.Origin())
+		}
 		for _, m := range reloads {
 			if o == m {
 				return true
@@ -994,7 +1084,11 @@ func c11RuntimeReload(c *core.Ctx, r *c11Router, decls map[*types.Func]*ast.Func
 			g := flow.NewFunc(pkg, fd)
 			for _, call := range calls(fd.Body, true) {
 				callee, ok := g.Callee(call).(*types.Func)
-				if !ok || !(isReload(callee) || handler[callee.Origin()]) {
+				if !ok {
+					continue
+				}
+				callee = c11SoleImpl(pkg, callee.Origin())
+				if !(isReload(callee) || handler[callee]) {
 					continue
 				}
 				for _, a := range call.Args {
@@ -1020,6 +1114,15 @@ func c11RuntimeReload(c *core.Ctx, r *c11Router, decls map[*types.Func]*ast.Func
 	}
 	sort.Slice(roots, func(i, j int) bool { return roots[i].Pos() < roots[j].Pos() })
 	if len(roots) == 0 {
+		// the publishing function itself receives the new spec (the store moved to the caller):
+		// "every return publishes the new generation" already covers all its paths
+		for _, m := range reloads {
+			if takesSpec(m) {
+				c.Discharge("R-C11-2", declName(pkg, decls[m])+"|router reloaded on every update", c.Prog.Rel(m.Pos()),
+					"the function that receives the new spec publishes the new generation itself (see 'every return publishes the new generation')")
+				return
+			}
+		}
 		c.Violate("R-C11-2", hs+".runtime|router reloaded on every update", c.Prog.Rel(reloads[0].Pos()), "no function that receives a new *supervisor.Spec reloads the mux: rule/option updates are not applied to the router")
 		return
 	}
